@@ -371,8 +371,8 @@ fn gen_delegation_case(r: &mut Rng) -> Vec<String> {
         ops.push(format!("deleg {SPACE} {x} {d} purge,read {} {} {} - 1", b.0, b.1, b.2));
         ndeleg += 1;
     }
-    let first_own = ndeleg;
-    for _ in 0..(2 + r.usize(3)) {
+    let mut made: Vec<(usize, &str)> = vec![];
+    for _ in 0..(2 + r.usize(5)) {
         let i = r.usize(held.len());
         let (action, own) = held[i].clone();
         let other = held[(i + 1 + r.usize(held.len() - 1)) % held.len()].1.clone();
@@ -383,8 +383,14 @@ fn gen_delegation_case(r: &mut Rng) -> Vec<String> {
             6 => (own.0.clone(), other.1.clone(), other.2.clone()),                        // scope from one, the rest from the other
             _ => gen_bounds(r),
         };
-        let (dor, dee, parent) = if ndeleg > first_own && r.chance(1, 4) { (e, f, format!("kip:delegation:{}", first_own + 1 + r.usize(ndeleg - first_own))) }
-            else { (d, if r.chance(3, 4) { e } else { f }, "-".to_string()) };
+        // re-delegations of any depth hang below ANY earlier row (its delegate passes it on); now and then the parent names a
+        // row that does not exist yet, so that later rows can close a cycle
+        let (dor, dee, parent) = if !made.is_empty() && r.chance(2, 5) {
+            let (pid, pdee) = made[r.usize(made.len())];
+            let parent = if r.chance(1, 8) { format!("kip:delegation:{}", ndeleg + 2) } else { format!("kip:delegation:{pid}") };
+            (pdee, *r.pick(&[e, f, x]), parent)
+        } else { (d, if r.chance(3, 4) { e } else { f }, "-".to_string()) };
+        made.push((ndeleg + 1, dee));
         let acts = if r.chance(1, 4) { format!("{action},{}", held[(i + 1) % held.len()].0) } else { action };
         ops.push(format!("deleg {SPACE} {dor} {dee} {acts} {sc} {co} {cs} {parent} {}", r.chance(2, 3) as u8));
         ndeleg += 1;
@@ -392,7 +398,7 @@ fn gen_delegation_case(r: &mut Rng) -> Vec<String> {
     let actions: Vec<String> = held.iter().map(|h| h.0.clone()).collect();
     let ask = |r: &mut Rng, ops: &mut Vec<String>| {
         for _ in 0..12 {
-            let who = *r.pick(&[e, e, e, f, f, d]);
+            let who = *r.pick(&[e, e, e, f, f, x, d]);
             let (k, t, c, el) = if r.chance(1, 8) { ("-", "-", "-", "-") } else {
                 (*r.pick(&["concept", "proposition", "evidence"]), *r.pick(&["T1", "T2", "-"]), *r.pick(&["-", "public", "internal", "private", "secret"]), *r.pick(&["-", "C-1", "C-2", "P-1"])) };
             let chain = if r.chance(1, 8) { format!("kip:delegation:{}", 1 + r.usize(ndeleg)) } else { "-".to_string() };
@@ -401,7 +407,7 @@ fn gen_delegation_case(r: &mut Rng) -> Vec<String> {
         }
     };
     ask(r, &mut ops);
-    match r.below(4) { 0 => ops.push(format!("revoke_grant {}", 1 + r.usize(ngrant))), 1 => ops.push(format!("pstatus {d} suspended")), 2 => ops.push(format!("revoke_deleg {}", 1 + r.usize(ndeleg))), _ => ops.push(format!("pstatus {e} suspended")) }
+    match r.below(5) { 0 => ops.push(format!("revoke_grant {}", 1 + r.usize(ngrant))), 1 => ops.push(format!("pstatus {d} suspended")), 2 | 3 => ops.push(format!("revoke_deleg {}", 1 + r.usize(ndeleg))), _ => ops.push(format!("pstatus {} suspended", r.pick(&[e, f]))) }
     ask(r, &mut ops);
     ops
 }
